@@ -166,21 +166,17 @@ def r07_3(ctx, prog, crate):
                 ctx.fail("R07.3", ["senders", "cloned-or-leaked", b.path, c.callee], "a worker's sender is duplicated or leaked: its channel never closes", c.line())
     drops = [i for i in prog.impls(crate) if i["trait"] == "std::ops::Drop" and "ThreadPool" in i["self"]]
     ctx.check(not drops, "R07.3", ["ThreadPool", "no-custom-Drop"], "ThreadPool has a Drop impl (it could keep senders alive)", "src/util/thread/pool.rs")
-    # spawn: the closure returns the sender (moved into the vector), the receiver moves into the worker
-    sp = prog.body(POOL + "spawn", crate)
-    mp = [x for x in prog.children(sp) if x.kind == "Closure"] if sp else []
-    if ctx.check(len(mp) == 1, "R07.3", ["spawn", "map-closure"], "spawn map closures: %d" % len(mp), sp.where(0) if sp else None):
-        m = mp[0]
-        ctx.saw(m)
-        ch = [c for c in m.live_calls() if c.callee == "std::sync::mpsc::sync_channel"]
-        if ctx.check(len(ch) == 1, "R07.3", ["spawn", "one-channel-per-worker"], "sync_channel sites: %d" % len(ch), m.where(0)):
-            ctx.check(const_int(ch[0].args[0]) == 0, "R07.3", ["spawn", "rendezvous-channel"], "channel capacity is not 0", ch[0].line())
-            ret = m.prov.local_src(0)
-            ctx.check(any(s.kind == "call" and s.b == ch[0].bb for s in ret), "R07.3", ["spawn", "returns-sender"], "the map closure does not return the sender", m.where(0))
-        thr = [c for c in m.live_calls() if c.callee.endswith("Builder::spawn")]
-        ctx.check(len(thr) == 1, "R07.3", ["spawn", "one-thread-per-channel"], "thread spawn sites: %d" % len(thr), m.where(0))
+    # spawn: per new worker one rendezvous channel, one detached thread, the sender goes to the list (either idiom, see C06.SpawnModel)
+    from rules.C06 import SpawnModel
+    m = SpawnModel(prog, crate)
+    if ctx.check(m.ok_shape, "R07.3", ["spawn", "map-closure"], "spawn: %s" % m.why, m.sp.where(0) if m.sp else None):
+        ctx.saw(m.starter)
+        if ctx.check(m.channel is not None and m.channel.callee == "std::sync::mpsc::sync_channel", "R07.3", ["spawn", "one-channel-per-worker"], "sync_channel sites per worker: %d" % len(m.channels), m.starter.where(0)):
+            ctx.check(const_int(m.channel.args[0]) == 0, "R07.3", ["spawn", "rendezvous-channel"], "channel capacity is not 0", m.channel.line())
+            ctx.check(m.sender_goes_to_list, "R07.3", ["spawn", "returns-sender"], "the sender of the new channel does not go to the pool's list", m.starter.where(0))
+        ctx.check(m.thread_spawn is not None, "R07.3", ["spawn", "one-thread-per-channel"], "thread spawn sites per worker: %d" % len(m.thread_spawns), m.starter.where(0))
         # the JoinHandle is dropped (detached), never joined
-        ctx.check(not any(c.callee.endswith("JoinHandle::join") for c in m.live_calls()), "R07.3", ["spawn", "detached"], "spawn joins", m.where(0))
+        ctx.check(not any(c.callee.endswith("JoinHandle::join") for c in m.starter.live_calls()), "R07.3", ["spawn", "detached"], "spawn joins", m.starter.where(0))
 
 
 def r07_4(ctx, prog, crate):
